@@ -115,8 +115,15 @@ func (m *Model) Rearrange(perm []int) {
 			}
 		}
 	})
+	// Note: named sets are shared between the expressions that mention them and must be updated
+	// only once.
+	updated := make(map[*TokenSet]bool)
 	for _, set := range m.Sets {
 		set.ForEach(func(ts *TokenSet) {
+			if updated[ts] {
+				return
+			}
+			updated[ts] = true
 			if nt := ts.Symbol - terms; nt >= 0 {
 				ts.Symbol = terms + perm[nt]
 			}
